@@ -216,8 +216,19 @@ def run_data_case(ctx, c, rng, known):
                 res = teneva.anova(I, y, r=3, order=fl[0], noise=1e-10, seed=1)
             elif rt == 'anova_func':
                 X = teneva.ind_to_poi(I, -1., 1., n, 'uni') if min(n) > 1 else np.hstack([teneva.ind_to_poi(I[:, :-1], -1., 1., n[:-1], 'uni'), np.zeros((len(I), 1))])
-                res = teneva.anova_func(X, y, 3)
-                exp_n = [3] * d
+                if fl[0] == 0:
+                    res = teneva.anova_func(X, y, 3)
+                    exp_n = [3] * d
+                else:
+                    # more basis functions than distinct abscissae in a mode (the per-mode least-squares problems are
+                    # rank deficient), plain least squares (lamb = 0) or the default regularisation; also one point repeated
+                    kw_ = dict(lamb=0.) if fl[0] == 1 else {}
+                    res = teneva.anova_func(X, y, 6, -1., 1., **kw_)
+                    exp_n = [6] * d
+                    Xr = np.repeat(X[:1], 7, axis=0)
+                    res2 = teneva.anova_func(Xr, np.arange(7.) if fl[0] == 1 else np.full(7, 3.), 4, -1., 1., e=None, **kw_)
+                    if not F.is_wellformed(res2, [4] * d):
+                        res = res2
             elif rt == 'als_func':
                 X = np.random.default_rng(1).uniform(-1, 1, size=(len(y), d))
                 res = teneva.als_func(X, y, teneva.rand([3] * d, 2, seed=2), nswp=2, info={})
